@@ -71,8 +71,8 @@ inline void std::default_delete< c12::tnode >::operator()( c12::tnode* p ) const
             work[ n++ ] = c.release();
          }
       }
-      // every child pointer is null now: the nested ~unique_ptr calls of ~tnode find nothing to delete
-      q->~tnode();
+      // every child pointer is null now and the other members are trivially destructible: ~tnode() would do nothing,
+      // the storage is released without calling it (calling it would re-enter ~unique_ptr for every child slot)
       ::operator delete( q );
    }
    if( n != 0 ) {
